@@ -747,6 +747,10 @@ def check(run):
     r7_response_path(run)
     r8_handler_inventory(run)
     r9_package_wide_callsite_handlers(run)
+    # every assertion that is adopted (plain or decrypted) went through the
+    # gate that checks its signature: shared with C17.R4
+    from . import c17
+    c17.r4_same_gate(run, rule="R10")
 
 
 # --------------------------------------------------------------------- R9
